@@ -2095,6 +2095,17 @@ void Node::tick() {
         {
             SchedulerLock lock(scheduler_mutex_);
             dht_.sweep_expired();
+            // A cached manifest and the swarm plan computed from it die with the manifest
+            // (its expiry is a wall-clock instant).
+            const auto wall_now = std::chrono::system_clock::now();
+            for (auto it = manifest_cache_.begin(); it != manifest_cache_.end();) {
+                if (wall_now >= it->second.expires_at) {
+                    swarm_plans_.erase(it->first);
+                    it = manifest_cache_.erase(it);
+                } else {
+                    ++it;
+                }
+            }
         }
         last_cleanup_ = now;
     }
